@@ -85,9 +85,9 @@ func TestC08(t *testing.T) {
 
 	p = c.rec.NewPart("rapid_fragments", "rapid over the SQL fragment grammar (incl. inputs with >= 6 tokens)", true, false, "")
 	g := gen.SQLInput()
-	c.Rapid(p, 8, pick(25000, 600000), func(rt *rapid.T, sh int) ev.Case { return c08Case(g.Draw(rt, "in")) })
+	c.Rapid(p, 8, pick(100000, 900000), func(rt *rapid.T, sh int) ev.Case { return c08Case(g.Draw(rt, "in")) })
 	p = c.rec.NewPart("rapid_attack_mutants", "rapid: attack grammar members and repository fixtures with 1-4 edits", true, false, "")
-	c.Rapid(p, 8, pick(15000, 400000), func(rt *rapid.T, sh int) ev.Case {
+	c.Rapid(p, 8, pick(60000, 600000), func(rt *rapid.T, sh int) ev.Case {
 		base := rapid.SampledFrom(att).Draw(rt, "base")
 		if rapid.IntRange(0, 2).Draw(rt, "src") == 0 {
 			base = rapid.SampledFrom(corp().SQL).Draw(rt, "fixture")
